@@ -466,6 +466,9 @@ func (router_info *RouterInfo) RouterCapabilities() string {
 		return ""
 	}
 	// return string(router_info.options.Values().Get(str))
+	if router_info.options == nil {
+		return ""
+	}
 	caps := string(router_info.options.Values().Get(str))
 	log.WithField("capabilities", caps).Debug("Retrieved RouterCapabilities")
 	return caps
@@ -480,6 +483,9 @@ func (router_info *RouterInfo) RouterVersion() string {
 		return ""
 	}
 	// return string(router_info.options.Values().Get(str))
+	if router_info.options == nil {
+		return ""
+	}
 	version := string(router_info.options.Values().Get(str))
 	log.WithField("version", version).Debug("Retrieved RouterVersion")
 	return version
